@@ -1010,8 +1010,9 @@ def reshape(a: NDArray, shape):
             return head + tail
         lin = ravel_index(mid, new_mid) if n_new_mid else 0
         return head + (unravel(lin, old_mid) if n_old_mid else ()) + tail
-    return NDArray(shape, lambda i: src.fn(remap(i)), a.dtype,
-                   (lambda i: src.mask_fn(remap(i))) if a.mask_fn is not None else None)
+    src_fn, src_mask = a.fn, a.mask_fn      # value semantics: later stores into ``a`` are not seen through the result
+    return NDArray(shape, lambda i: src_fn(remap(i)), a.dtype,
+                   (lambda i: src_mask(remap(i))) if src_mask is not None else None)
 
 
 def transpose(a, axes=None):
@@ -1295,11 +1296,11 @@ class Quantified:
         else:
             # not p => counter-witness in range with body false
             c.assume(z3.Implies(z3.Not(p), z3.And(inr, z3.Not(body))))
-        self_ = self
-        res = mk_bool(p)
-        if isinstance(res, SBool):
-            res._quant = (self_, tuple(o))
-        return res
+        reg = getattr(c, 'quantifiers', None)
+        if reg is None:
+            reg = c.quantifiers = []
+        reg.append((self, tuple(o)))
+        return mk_bool(p)
 
     def instantiate(self, o, r):
         """Add the instance of the defining axiom for reduced index r (caller chooses r)."""
